@@ -23,7 +23,7 @@ func init() {
 	register(&propDef{
 		ID: "C03",
 		Meta: propMeta{
-			Explanation: "Decides structural necessary conditions (nothing is executed): (R03a) every registered signer of a container format returns its result through SignOpts.SetBinPatch or SetPkcs7 (a patch against, or a blob next to, the original bytes), never a rewritten copy of the input; the frozen table lists the signers whose output is by nature a new document (pgp, cosign, appmanifest, pkcs); (R03b) the CFB allocator makeFreeSectors appends a sector id to its result only if the table entry at that index equals the free marker or the index lies beyond the old end of the table, and every writeSector / writeShortSector call on the writing side targets an allocator result or a sector listed in the MSAT / MSAT-list (the table's own sectors); (R03c) comdoc.DeleteFile frees sector chains only for the directory entries whose name matched and refuses anything that is not a stream, and AddFile deletes exactly the name it adds; (R03d) the ZIP manglers keep existing members by re-indexing: Directory.Mangle and JarDigest.insertSignature hand kept members to Directory.AddFile in directory order and never dump, reopen or re-create them; Directory.AddFile changes nothing of a member but its offset and drops the cached raw header only when the offset changed; (R03e) rewrites act on the metadata as read: DeleteFile frees an entry's chain before blanking the entry, zipslicer decides the presence of a data descriptor from the local header's flag bit 3, and binpatch's in-place path sets the file to exactly Offset+NewSize of the last patch (not a maximum). (R03f) a function that overwrites Directory.DirLoc with a provisional offset and returns the directory stores the original offset (a load taken before the overwrite) back on every path to a success return; (R03g) every uint8(len(x)) is covered by a comparison of that same byte length with a constant that fits, or x was re-sliced to such a constant (module-wide); (R03h) the length signdeb.Sign removes for an existing _gpg member, when computed from ar.Header.Size, goes through a rounding to even. (R03i) the loop of lib/fruit/xar that rewrites heap offsets in the table of contents cannot go round an entry for any reason other than that entry's offset being absent or unparsable. (R03j) in signdeb.Sign the value handed to ar.NewReader is the readercounter itself, or the counter behind io.LimitReader / io.TeeReader / io.NopCloser, with nothing buffering in between; (R03k) ZIP local header name and extra are read from the local header (C17 R17r), so member sizes and the ranges removed when rewriting are those of the file.",
+			Explanation: "Decides structural necessary conditions (nothing is executed): (R03a) every registered signer of a container format returns its result through SignOpts.SetBinPatch or SetPkcs7 (a patch against, or a blob next to, the original bytes), never a rewritten copy of the input; the frozen table lists the signers whose output is by nature a new document (pgp, cosign, appmanifest, pkcs); (R03b) the CFB allocator makeFreeSectors appends a sector id to its result only if the table entry at that index equals the free marker or the index lies beyond the old end of the table, and every writeSector / writeShortSector call on the writing side targets an allocator result or a sector listed in the MSAT / MSAT-list (the table's own sectors); (R03c) comdoc.DeleteFile frees sector chains only for the directory entries whose name matched and refuses anything that is not a stream, and AddFile deletes exactly the name it adds; (R03d) the ZIP manglers keep existing members by re-indexing: Directory.Mangle and JarDigest.insertSignature hand kept members to Directory.AddFile in directory order and never dump, reopen or re-create them; Directory.AddFile changes nothing of a member but its offset and drops the cached raw header only when the offset changed; (R03e) rewrites act on the metadata as read: DeleteFile frees an entry's chain before blanking the entry, zipslicer decides the presence of a data descriptor from the local header's flag bit 3, and binpatch's in-place path sets the file to exactly Offset+NewSize of the last patch (not a maximum). (R03f) a function that overwrites Directory.DirLoc with a provisional offset and returns the directory stores the original offset (a load taken before the overwrite) back on every path to a success return; (R03g) every uint8(len(x)) is covered by a comparison of that same byte length with a constant that fits, or x was re-sliced to such a constant (module-wide); (R03h) the length signdeb.Sign removes for an existing _gpg member, when computed from ar.Header.Size, goes through a rounding to even. (R03i) the loop of lib/fruit/xar that rewrites heap offsets in the table of contents cannot go round an entry for any reason other than that entry's offset being absent or unparsable. (R03h) the span removed for the old _gpg member is computed from ar.Header.Size rounded up to even, or - when it is measured from stream positions - made even somewhere in its derivation; (R03m) no map store in a function reachable from a signer's Sign / Transform / Fixup or a Transformer's Apply / GetReader goes into a map that may be a package-level variable of the module, directly or as the result of a helper (depth 2): what is added for one artifact does not turn up in the next; (R03l) every site of lib/comdoc that chooses between the two allocation tables uses the same cutoff predicate (C18 R18e), so a stream is freed in the table it lives in; (R03j) in signdeb.Sign the value handed to ar.NewReader is the readercounter itself, or the counter behind io.LimitReader / io.TeeReader / io.NopCloser, with nothing buffering in between; (R03k) ZIP local header name and extra are read from the local header (C17 R17r), so member sizes and the ranges removed when rewriting are those of the file.",
 			NotDecided:  "that every payload item of an output has exactly its input bytes (C12 decides that patches apply exactly, C17/C18 the container bookkeeping); well-formedness of the output for an independent reader; the refusal of inputs relic cannot rewrite safely in general (only the refusals named above).",
 			Assumptions: []string{"a binary patch leaves every byte outside its regions untouched (decided separately by C12)"},
 		},
@@ -223,12 +223,15 @@ func c03TableSector(p *Prog, v ssa.Value) bool {
 	return false
 }
 
+// c03RuleDelete: the rule id c03Delete reports under (R03c; C01 shares it as R01m).
+var c03RuleDelete = "R03c"
+
 func c03Delete(c *Ctx) {
 	p := c.P
 	df := p.Func("lib/comdoc.(*ComDoc).DeleteFile")
 	af := p.Func("lib/comdoc.(*ComDoc).AddFile")
 	if df == nil || af == nil {
-		c.Undecided("R03c", "DeleteFile/AddFile", "-", "function not found")
+		c.Undecided(c03RuleDelete, "DeleteFile/AddFile", "-", "function not found")
 		return
 	}
 	c.Analysed(p.FName(df))
@@ -256,7 +259,7 @@ func c03Delete(c *Ctx) {
 			ok = false
 		}
 	}
-	c.Check(ok, "R03c", "DeleteFile frees only the matched stream's chain", p.Pos(df.Pos()), "behind name match and stream type; chain head is item.NextSector", "DeleteFile can free a sector chain of an entry whose name did not match, or of a storage: content of another stream becomes free space and is overwritten by the next signature", path...)
+	c.Check(ok, c03RuleDelete, "DeleteFile frees only the matched stream's chain", p.Pos(df.Pos()), "behind name match and stream type; chain head is item.NextSector", "DeleteFile can free a sector chain of an entry whose name did not match, or of a storage: content of another stream becomes free space and is overwritten by the next signature", path...)
 	// the blanking of the dirent is behind the same guards
 	okBlank := false
 	for _, b := range df.Blocks {
@@ -272,12 +275,12 @@ func c03Delete(c *Ctx) {
 			}
 		}
 	}
-	c.Check(okBlank, "R03c", "DeleteFile blanks only the matched entry", p.Pos(df.Pos()), "", "a directory entry can be blanked without its name having matched")
+	c.Check(okBlank, c03RuleDelete, "DeleteFile blanks only the matched entry", p.Pos(df.Pos()), "", "a directory entry can be blanked without its name having matched")
 	// AddFile deletes the name it adds
 	dels := p.callsIn(af, "(*lib/comdoc.ComDoc).DeleteFile")
 	news := p.callsIn(af, "(*lib/comdoc.ComDoc).newDirEnt")
 	okSame := len(dels) == 1 && len(news) == 1 && dels[0].Common().Args[1] == news[0].Common().Args[1]
-	c.Check(okSame, "R03c", "AddFile replaces exactly the name it adds", p.Pos(af.Pos()), "", "AddFile deletes a different name than the one it creates")
+	c.Check(okSame, c03RuleDelete, "AddFile replaces exactly the name it adds", p.Pos(af.Pos()), "", "AddFile deletes a different name than the one it creates")
 }
 
 func c03Zip(c *Ctx) {
